@@ -90,8 +90,8 @@ def canon_real(it):
 
 
 def run_naming(chk, tier, only=None, cfgs=None, release=False, tag="naming"):
-    cfgs = cfgs or (["MC_naming_quick.cfg", "MC_naming_quick_z.cfg", "MC_naming_bighist.cfg"] if tier == "quick"
-                    else ["MC_naming.cfg", "MC_naming_z.cfg", "MC_naming_bighist.cfg"])
+    cfgs = cfgs or (["MC_naming_quick.cfg", "MC_naming_quick_z.cfg", "MC_naming_bighist.cfg", "MC_naming_gauge.cfg"] if tier == "quick"
+                    else ["MC_naming.cfg", "MC_naming_z.cfg", "MC_naming_bighist.cfg", "MC_naming_gauge.cfg"])
     beh = []
     if only is not None:
         beh = [only]
@@ -116,7 +116,11 @@ def run_naming(chk, tier, only=None, cfgs=None, release=False, tag="naming"):
     bad = 0
     after_desc = 0
     crossing = 0
+    gauge_zero = 0
     for b, o in zip(beh, outs):
+        # statistics: a readout after a gauge went back to 0 (set(0.0), set(-0.0), decrement to 0)
+        if any(st[0] == "Touch" and len(st) == 4 and st[3] in ("set0", "setneg0", "dec0") for st in b["steps"]):
+            gauge_zero += 1
         # statistics: a readout window in which value x count of one histogram class reaches 2^32
         if any(st[0] == "Touch" and len(st) > 4 and st[4] * {"v100": 100, "v1e6": 10**6, "v2e31": 2**31}.get(st[3], 2**32 - 1) >= 2**32
                for st in b["steps"]):
@@ -155,7 +159,7 @@ def run_naming(chk, tier, only=None, cfgs=None, release=False, tag="naming"):
         chk.evaluations += 1
         if viol:
             bad += 1
-            ops = " ".join(f"{st[0]}({','.join(str(x) for x in (st[1:3] if len(st) < 5 else [st[1], st[3], st[4]]))})"
+            ops = " ".join(f"{st[0]}({','.join(str(x) for x in (st[1:] if len(st) < 5 else [st[1], st[3], st[4]]))})"
                            if st[0] != "Readout" else "Readout" for st in b["steps"])
             chk.violation(f"naming/units/values{' (release build)' if release else ''}: after {ops} (emit_zero={b['emit_zero']}): {viol}",
                           {"kind": "naming", "behaviour": b, "observed": o, "release": release}, key="C20:naming")
@@ -163,6 +167,9 @@ def run_naming(chk, tier, only=None, cfgs=None, release=False, tag="naming"):
     chk.extra[tag + "_behaviours"] = len(beh)
     chk.extra[tag + "_behaviours_describe_after_use"] = after_desc
     chk.extra[tag + "_behaviours_value_x_count_over_2^32"] = crossing
+    chk.extra[tag + "_behaviours_gauge_back_to_zero"] = gauge_zero
+    if only is None and "MC_naming_gauge.cfg" in cfgs and not gauge_zero:
+        raise vlib.ToolError("no history sets a gauge back to zero (vacuous)")
     if only is None and "MC_naming_bighist.cfg" in cfgs and not crossing:
         raise vlib.ToolError("no history records enough large histogram samples for value x count to reach 2^32 (vacuous)")
     chk.nontrivial.update(f"{tag}:{i}" for i in range(len(beh)))
@@ -328,7 +335,7 @@ def setof(x):
     return x.get("__set__", []) if isinstance(x, dict) else (x or [])
 
 
-def explain(v, keys):
+def explain(v, keys, classes=None):
     """Human-readable reason from the diagnostics TLC stored for the rejected line (the verdict itself
     is TLC's: the line could not be consumed)."""
     ev = v.event if isinstance(v.event, dict) else {}
@@ -337,6 +344,13 @@ def explain(v, keys):
         return f"event {json.dumps(ev)[:300]} is not allowed by the specification here"
     fails = sorted(setof(st[0]))
     msgs = []
+
+    def cval(ci):
+        try:
+            c, u = classes[ci - 1]
+            return str(c * u)
+        except Exception:
+            return f"class {ci}"
 
     def kname(i):
         k = keys[i - 1]
@@ -357,10 +371,10 @@ def explain(v, keys):
         for k in h["cum"]:
             tot = h["cum"][k] + h["delta"][k]
             if tot < h["lo"][k]:
-                msgs.append(f"histogram {kname(k[0])} value~{k[1]}: {h['lo'][k]} samples had been recorded before this readout "
+                msgs.append(f"histogram {kname(k[0])} value~{cval(k[1])}: {h['lo'][k]} samples had been recorded before this readout "
                             f"started, readouts report only {tot}: samples lost")
             elif tot > h["started"][k]:
-                msgs.append(f"histogram {kname(k[0])} value~{k[1]}: readouts report {tot} samples, only {h['started'][k]} were "
+                msgs.append(f"histogram {kname(k[0])} value~{cval(k[1])}: readouts report {tot} samples, only {h['started'][k]} were "
                             f"recorded: samples reported more than once")
     if "gauges" in fails or "units" in fails:
         win = dict(fn_items(st[3]["window"]))
@@ -395,7 +409,7 @@ def run_recorded(chk, nruns, seed, tag="t", only=None, repeat=1):
 
     def on_reject(m, v, lines):
         reset = json.loads(lines[0])
-        why = explain(v, reset["keys"])
+        why = explain(v, reset["keys"], reset.get("classes"))
         rejected.append(m["id"])
         chk.violation(
             f"recorded run {m['run']} (seed {m['seed']}, {m['threads']} updater threads, {m['updates']} updates, "
@@ -443,6 +457,37 @@ def run_recorded(chk, nruns, seed, tag="t", only=None, repeat=1):
     return rejected
 
 
+def run_lonely(chk, rounds, seed, tag="lonely"):
+    """One record racing a readout loop, checked before the key is touched again (`mb lonely`); count-form trace
+    (agreeing rounds summed up, the first disagreeing round on its own) validated by MetricsBridgeTrace.tla."""
+    tp = os.path.join(chk.dir, f"{tag}-trace.ndjson")
+    mp = os.path.join(chk.dir, f"{tag}-meta.ndjson")
+    vlib.run_bin("mb", ["lonely", "--out", tp, "--meta", mp, "--rounds", rounds, "--batch", 10000, "--seed", seed], timeout=3600)
+    metas = vlib.read_ndjson(mp)
+    rejected = []
+
+    def on_reject(m, v, lines):
+        reset = json.loads(lines[0])
+        why = explain(v, reset["keys"], reset.get("classes"))
+        rejected.append(m["id"])
+        chk.violation(
+            f"lonely record (batch {m['run']}, seed {m['seed']}, round {m['failed_round']} of {m['rounds']}): a histogram sample was "
+            f"recorded while a reader thread read out in a loop; two readouts that started after record() had returned have "
+            f"finished and the key was not touched again: {why}",
+            {"kind": "lonely", "meta": m, "rejected_line": v.line, "trace": [json.loads(x) for x in lines]}, key="C20:lonely")
+
+    acc = vlib.validate_scenarios(SPECD, "MetricsBridgeTrace", "MetricsBridgeTrace.cfg", tp, mp, on_reject,
+                                  chunk=1000, jobs=2, chunk_timeout=300, one_timeout=300)
+    chk.traces += acc
+    chk.evaluations += len(metas)
+    ex = chk.extra.setdefault("lonely_records", {"rounds": 0, "samples": 0, "readouts": 0})
+    ex["rounds"] += sum(m["rounds"] for m in metas)
+    ex["samples"] += sum(m["samples"] for m in metas)
+    ex["readouts"] += sum(m["readouts"] for m in metas)
+    chk.nontrivial.update(f"lonely:{m['seed']}" for m in metas)
+    return rejected
+
+
 def run(prop, tier):
     chk = vlib.Check(prop, tier)
     chk.rule = ("evaluations = recorded concurrent runs of the real bridge (each validated event by event by TLC against the "
@@ -453,7 +498,9 @@ def run(prop, tier):
         "updates are logged per batch (start, n updates, end); a batch counts as started/ended as a whole (sound, coarser)",
         "histogram values are taken from 9 classes (0 .. u32::MAX, larger values capped) that are >1/16 apart, so a reported "
         "bucket identifies the recorded value; values from 2^31 on are compared in units of 1024 (TLC has 32-bit integers)",
-        "gauge values are unique per call; a name is used for one metric kind only",
+        "gauge values are unique per call, except that one thread also sets gauges back to 0.0; a name is used for one metric kind only",
+        "lonely-record rounds: rounds in which everything recorded had been reported after two trailing readouts are summed up in "
+        "the trace; the first round where it had not is logged on its own (the harness only decides what to log in detail)",
         "a lost update that needs a window never hit in the recorded runs is not seen (contention: 60% of the updates go to one key)",
         "TLC results for MetricsBridge.tla are exhaustive only within the constants of the MC_mb*.cfg files",
     ]
@@ -470,6 +517,7 @@ def run(prop, tier):
     run_reporter(chk, tier)
     nruns = 48 if tier == "quick" else 600
     run_recorded(chk, nruns, chk.seed)
+    run_lonely(chk, 150_000 if tier == "quick" else 3_000_000, chk.seed)
     racing, conc = chk.extra.get("readouts_started_while_updates_in_flight", 0), chk.extra.get("concurrent_readouts", 0)
     if racing < nruns or racing * 4 < conc:
         raise vlib.ToolError(f"only {racing} of {conc} readouts started while updates were in flight (vacuous runs)")
@@ -496,6 +544,10 @@ def replay(prop, path):
     vlib.write_ndjson(tp, rp["trace"])
     r = vlib.validate_trace(SPECD, "MetricsBridgeTrace", "MetricsBridgeTrace.cfg", tp)
     log("stored trace:", "ACCEPTED" if r.accepted else f"REJECTED at line {r.line}")
+    if rp["kind"] == "lonely":
+        rej = run_lonely(chk, 300_000, rp["meta"]["seed"] % 1000, tag="replay")
+        log(f"re-ran 300000 lonely-record rounds: {len(rej)} batches rejected")
+        return 1 if rej else 0
     m = rp["meta"]
     # the schedule is not reproducible; re-run the same plan a number of times
     seed_base = (m["seed"] - m["run"]) // 1_000_003
